@@ -26,13 +26,16 @@ var hookNames = []string{"BeforeSave", "BeforeCreate", "AfterCreate", "AfterSave
 
 // RecIn is one in-memory record handed to gorm.
 type RecIn struct {
-	ID   int64   `json:"id"`  // primary key (0 = let the database choose)
-	Tag  int64   `json:"tag"` // identity of the in-memory record (unique over the whole case)
-	Val  int64   `json:"val"`
-	Nil  bool    `json:"nil,omitempty"`  // pointer-element shapes only: the element is a nil pointer
-	Boss *RecIn  `json:"boss,omitempty"` // belongs-to (saved before the record)
-	Kids []RecIn `json:"kids,omitempty"` // has-many, slice of values
-	Pets []RecIn `json:"pets,omitempty"` // has-many, slice of pointers
+	ID   int64  `json:"id"`  // primary key (0 = let the database choose)
+	Tag  int64  `json:"tag"` // identity of the in-memory record (unique over the whole case)
+	Val  int64  `json:"val"`
+	Nil  bool   `json:"nil,omitempty"`  // pointer-element shapes only: the element is a nil pointer
+	Boss *RecIn `json:"boss,omitempty"` // belongs-to (saved before the record)
+	// BossIx: the record's belongs-to value is the SHARED in-memory record Input.Shared[BossIx-1]
+	// (the same pointer in every owner that names it); 0 = none
+	BossIx int     `json:"boss_ix,omitempty"`
+	Kids   []RecIn `json:"kids,omitempty"` // has-many, slice of values
+	Pets   []RecIn `json:"pets,omitempty"` // has-many, slice of pointers
 }
 
 // Row is a stored row of one of the tables.
@@ -45,11 +48,12 @@ type Row struct {
 
 // Input is one case.
 type Input struct {
-	Op     string  `json:"op"`    // create save update updates update_column update_columns delete find first
-	Type   string  `json:"type"`  // T0..T11
-	Shape  string  `json:"shape"` // [ptr_]struct | [ptr_]slice_{val,ptr} | [ptr_]array_{val,ptr}
-	Recs   []RecIn `json:"recs"`  // the in-memory records (struct shapes: exactly one)
-	Seed   []Row   `json:"seed"`  // rows present before the operation
+	Op     string  `json:"op"`                      // create save update updates update_column update_columns delete find first
+	Type   string  `json:"type"`                    // T0..T11
+	Shape  string  `json:"shape"`                   // [ptr_]struct | [ptr_]slice_{val,ptr} | [ptr_]array_{val,ptr}
+	Recs   []RecIn `json:"recs"`                    // the in-memory records (struct shapes: exactly one)
+	Shared []RecIn `json:"shared_bosses,omitempty"` // belongs-to records shared by several owners (RecIn.BossIx)
+	Seed   []Row   `json:"seed"`                    // rows present before the operation
 	Skip   bool    `json:"skip_hooks"`
 	TxMode string  `json:"tx_mode"` // default | outer | skipdefault
 	Fails  []int   `json:"fails"`   // hook invocations (0-based, counted over the whole operation) that return an error
@@ -212,6 +216,9 @@ func (w *World) reset(seed []Row) {
 
 // ---------------------------------------------------------------- building the argument
 
+// sharedBoss holds the in-memory shared belongs-to records of the case being built
+var sharedBoss []*Boss
+
 func setRec(v reflect.Value, r RecIn) {
 	v.FieldByName("ID").SetInt(r.ID)
 	v.FieldByName("Tag").SetInt(r.Tag)
@@ -219,6 +226,9 @@ func setRec(v reflect.Value, r RecIn) {
 	if f := v.FieldByName("Boss"); f.IsValid() && r.Boss != nil {
 		b := &Boss{ID: r.Boss.ID, Tag: r.Boss.Tag, Val: r.Boss.Val}
 		f.Set(reflect.ValueOf(b))
+	}
+	if f := v.FieldByName("Boss"); f.IsValid() && r.BossIx > 0 && r.BossIx <= len(sharedBoss) {
+		f.Set(reflect.ValueOf(sharedBoss[r.BossIx-1]))
 	}
 	if f := v.FieldByName("Kids"); f.IsValid() && len(r.Kids) > 0 {
 		ks := make([]Kid, len(r.Kids))
@@ -341,6 +351,10 @@ func (w *World) Run(in Input) (o Obs) {
 	E.setKey = "Val"
 	if in.SetKey == "db" {
 		E.setKey = "val"
+	}
+	sharedBoss = nil
+	for _, b := range in.Shared {
+		sharedBoss = append(sharedBoss, &Boss{ID: b.ID, Tag: b.Tag, Val: b.Val})
 	}
 	arg, mem := build(ti.T, in.Shape, in.Recs)
 
